@@ -1,5 +1,6 @@
 """U-engine: ZmtpEngine (protocol/zmtp/engine.rs) -- the sans-IO protocol state machine.
-Mechanism / framer / command parser enter as abstract contract stand-ins (prelude/engine_env.rs)."""
+Every phase handler is extracted verbatim and proved to preserve the engine invariant `inv()`;
+mechanism / framer / command parser enter as abstract contract stand-ins (prelude/engine_env.rs)."""
 import re
 from vlib.vx import Fn, Item, Raw
 from vlib.runner import Unit
@@ -8,7 +9,6 @@ EN = "core/src/protocol/zmtp/engine.rs"
 ACT = "core/src/protocol/zmtp/actions.rs"
 OPT = "core/src/socket/options.rs"
 GR = "core/src/protocol/zmtp/greeting.rs"
-CODEC = "core/src/protocol/zmtp/codec.rs"
 IMPL = r"impl\s+ZmtpEngine\b"
 
 GLUE = """
@@ -31,15 +31,115 @@ impl ZmtpCodec {
 // outside Verus' subset; the verdict only selects a SetCork net action and is left uninterpreted)
 #[verifier::external_body]
 pub fn verif_is_cork_type(c: &ZmtpEngineConfig) -> bool { unimplemented!() }
+// R8: `self.config.routing_id.as_ref().map_or_else(Vec::new, |id| id.as_ref().to_vec())`
+#[verifier::external_body]
+pub fn verif_routing_id_bytes(c: &ZmtpEngineConfig) -> Vec<u8> { unimplemented!() }
+// R8: `self.config.heartbeat_timeout.map(|d| d.as_millis().min(u16::MAX as u128) as u16).unwrap_or(0)`
+#[verifier::external_body]
+pub fn verif_ttl_ms(c: &ZmtpEngineConfig) -> u16 { unimplemented!() }
+// R8: `socket_type_name_from_code(b).map(String::from)`
+#[verifier::external_body]
+pub fn verif_stype_name_owned(code: u8) -> Option<String> { unimplemented!() }
+
+// ---- greeting.rs / security/mod.rs callees as contract stand-ins (their own units: greeting, compat, negotiate)
+pub open spec fn v3_tail_len() -> nat { 53 }
+#[verifier::external_body]
+pub fn encode_v3_tail(mechanism: &[u8; 20], as_server: bool, buffer: &mut BytesMut)
+  ensures final(buffer)@.len() == old(buffer)@.len() + v3_tail_len(), final(buffer)@.subrange(0, old(buffer)@.len() as int) == old(buffer)@
+{ unimplemented!() }
+#[verifier::external_body]
+pub fn local_mechanism_name_bytes(config: &ZmtpEngineConfig) -> &'static [u8; 20] { unimplemented!() }
+#[verifier::external_body]
+pub fn socket_type_code(name: &String) -> Option<u8> { unimplemented!() }
+#[verifier::external_body]
+pub fn build_local_ready_props(config: &ZmtpEngineConfig) -> HashMap<String, Vec<u8>> { unimplemented!() }
+impl ZmtpGreeting {
+  #[verifier::external_body]
+  pub fn decode(buffer: &mut BytesMut) -> (r: Result<Option<ZmtpGreeting>, ZmqError>)
+    ensures
+      old(buffer)@.len() < 64 ==> (r matches Ok(None)) && final(buffer)@ == old(buffer)@,
+      old(buffer)@.len() >= 64 ==> !(r matches Ok(None)) && final(buffer)@ == old(buffer)@.subrange(64, old(buffer)@.len() as int),
+  { unimplemented!() }
+}
+// which mechanisms the local configuration admits; NULL only when no security mechanism is configured
+pub open spec fn allowed_kind(c: ZmtpEngineConfig, k: MechKind) -> bool {
+  match k {
+    MechKind::Null => !c.security_enabled,
+    MechKind::Plain => c.use_plain,
+    MechKind::Curve => c.use_curve,
+    MechKind::NoiseXx => c.use_noise_xx,
+  }
+}
+// security/mod.rs negotiate_security_mechanism: the returned mechanism is one the local configuration enables
+#[verifier::external_body]
+pub fn negotiate_security_mechanism(is_server: bool, local_config: &ZmtpEngineConfig, peer_greeting: &ZmtpGreeting, h: usize)
+  -> (r: Result<Box<dyn Mechanism>, ZmqError>)
+  ensures r matches Ok(m) ==> allowed_kind(*local_config, m.kind())
+{ unimplemented!() }
+
+// number of HandshakeComplete / DeliverMessage actions: the outputs C06 forbids before authentication
+pub open spec fn n_gated(acts: Seq<AppAction>) -> nat
+  decreases acts.len()
+{
+  if acts.len() == 0 { 0 } else { n_gated(acts.drop_last()) + (if is_delivery(acts.last()) || is_hs_complete(acts.last()) { 1nat } else { 0nat }) }
+}
+pub broadcast proof fn lemma_n_gated_push(acts: Seq<AppAction>, a: AppAction)
+  ensures #[trigger] n_gated(acts.push(a)) == n_gated(acts) + (if is_delivery(a) || is_hs_complete(a) { 1nat } else { 0nat })
+{
+  assert(acts.push(a).drop_last() =~= acts);
+  assert(acts.push(a).last() == a);
+}
+pub open spec fn extends(old_acts: Seq<AppAction>, new_acts: Seq<AppAction>) -> bool {
+  old_acts.len() <= new_acts.len() && new_acts.subrange(0, old_acts.len() as int) =~= old_acts
+}
 
 impl ZmtpEngine {
   // frames of the current call = suffix of the framer's read log
   pub open spec fn new_frames(&self, before: Seq<Msg>) -> Seq<Msg> { self.framer.read_log().skip(before.len() as int) }
+
+  // C06: the framer in use was produced by a COMPLETED mechanism that the local configuration enables
+  pub open spec fn framer_auth(&self) -> bool { self.framer.origin_complete() && allowed_kind(*self.config, self.framer.origin_kind()) }
+  pub open spec fn auth_ok(&self) -> bool {
+    (self.version == Some(ZmtpVersion::V3) && self.framer_auth()) || (self.version == Some(ZmtpVersion::V2) && !self.config.security_enabled)
+  }
+  // the engine invariant, preserved by every handler
+  pub open spec fn inv(&self) -> bool {
+    &&& all_more(self.partial_batch@)
+    &&& (self.version == Some(ZmtpVersion::V2) ==> !self.config.security_enabled)
+    &&& (self.phase == ZmtpPhase::Greeting ==> self.version != Some(ZmtpVersion::V2))
+    &&& (self.phase == ZmtpPhase::V2Identity ==> self.version == Some(ZmtpVersion::V2))
+    &&& (self.phase == ZmtpPhase::Security ==> self.version == Some(ZmtpVersion::V3) && allowed_kind(*self.config, self.security_mechanism.kind()))
+    &&& (self.phase == ZmtpPhase::Ready ==> self.version == Some(ZmtpVersion::V3)
+          && (self.pending_framer matches Some(f) && (f.origin_complete() && allowed_kind(*self.config, f.origin_kind()))))
+    &&& (self.phase == ZmtpPhase::Data ==> self.auth_ok())
+  }
+  // C04: when a handler returns in the Data phase nothing decodable is left behind in the accumulator
+  pub open spec fn drained(&self) -> bool {
+    self.phase == ZmtpPhase::Data ==> (self.network_read_accumulator@.len() == 0 || self.framer.would_block(self.network_read_accumulator@))
+  }
 }
 """
 
 CORK = [("R8", re.compile(r"matches!\(\s*self\.config\.socket_type_name\.as_str\(\),\s*\"PUSH\" \| \"PULL\" \| \"PUB\" \| \"SUB\"\s*\)", re.S),
          "verif_is_cork_type(&self.config)", 1)]
+
+# what every phase handler guarantees about the output it appends to and the state it leaves
+def handler_post(extra=(), hs_frame=True):
+  return ([HS_FRAME] if hs_frame else []) + [
+    ("C06+C04+C02:inv_preserved", "final(self).inv()"),
+    ("C06:config_frame", "final(self).config == old(self).config"),
+    # no HandshakeComplete and no DeliverMessage is ever emitted unless the peer completed the configured mechanism
+    ("C06:handshake_complete_and_deliveries_only_when_authenticated", "n_gated(final(out).app_actions@) > 0 ==> final(self).auth_ok()"),
+    ("C06:authentication_is_never_lost", "old(self).auth_ok() ==> final(self).auth_ok()"),
+    ("C02:only_complete_messages_delivered", "deliveries_complete(old(out).app_actions@) ==> deliveries_complete(final(out).app_actions@)"),
+    ("C06:output_only_appended", "extends(old(out).app_actions@, final(out).app_actions@)"),
+    ("C04:leftover_bytes_drained_in_same_call", "final(self).drained()"),
+  ] + list(extra)
+
+HS_FRAME = ("C05:handshake_flags_frame", "final(self).revision_sent == old(self).revision_sent && final(self).version == old(self).version && final(self).is_server == old(self).is_server")
+
+PD_INV_FRAME = ("self.version == old(self).version && self.config == old(self).config && self.framer.origin_kind() == old(self).framer.origin_kind() "
+                "&& self.framer.origin_complete() == old(self).framer.origin_complete()")
 
 parts = [
   Raw("prelude/core.rs"),
@@ -49,6 +149,15 @@ parts = [
   Raw("prelude/framebatch.rs"),
   Raw("prelude/zmtp_spec.rs"),
   Raw("prelude/engine_env.rs"),
+  Item(GR, "const", "GREETING_LENGTH"),
+  Item(GR, "const", "MECHANISM_LENGTH"),
+  Item(GR, "const", "SIGNATURE_LENGTH"),
+  Item(GR, "const", "V2_REVISION"),
+  Item(GR, "const", "V3_REVISION"),
+  Item(GR, "struct", "ZmtpGreeting"),
+  Item(EN, "const", "REVISION_OFFSET"),
+  Item(EN, "const", "V2_SOCKET_TYPE_OFFSET"),
+  Item(EN, "const", "V2_GREETING_LENGTH"),
   Item(OPT, "struct", "ZmtpEngineConfig"),
   Item(ACT, "enum", "NetAction"),
   Item(ACT, "enum", "AppAction"),
@@ -64,27 +173,41 @@ parts = [
      extra=[("R2", re.compile(r"\s*\.map_err\(\|e\| ZmqError::Internal\(e\.to_string\(\)\)\)"), "", 1)],
      hints=[("ext", "re:Ok\\(buf\\.freeze\\(\\)\\)", 0, "before", "proof { assert(buf@ =~= enc_msg(msg)); }")]),
   Fn(EN, "fail", impl=IMPL, emit_impl="impl ZmtpEngine",
-     ensures=[("C07:closed", "final(self).phase == ZmtpPhase::Closed"),
+     ensures=[HS_FRAME, ("C07:closed", "final(self).phase == ZmtpPhase::Closed"),
               ("C07:reports_peer_error", "final(out).app_actions@ == old(out).app_actions@.push(AppAction::PeerError(err)) && final(out).net_actions@ == old(out).net_actions@"),
-              ("C06:frame", "final(self).version == old(self).version && final(self).framer == old(self).framer && final(self).config == old(self).config && final(self).partial_batch == old(self).partial_batch")]),
+              ("C06:frame", "final(self).version == old(self).version && final(self).framer == old(self).framer && final(self).config == old(self).config && final(self).partial_batch == old(self).partial_batch "
+                            "&& final(self).network_read_accumulator == old(self).network_read_accumulator && final(self).pending_framer == old(self).pending_framer && final(self).security_mechanism == old(self).security_mechanism")]),
+  Fn(EN, "validate_v2_compatibility", impl=IMPL, emit_impl="impl ZmtpEngine", contract_only=True),
+  Fn(EN, "activate_pending_framer", impl=IMPL, emit_impl="impl ZmtpEngine",
+     ensures=[HS_FRAME, ("C06:swaps_in_the_pending_framer", "old(self).pending_framer matches Some(f) ==> final(self).framer == f && final(self).pending_framer is None"),
+              ("C06:noop_without_pending", "old(self).pending_framer is None ==> final(self).framer == old(self).framer && final(self).pending_framer is None"),
+              ("C06:frame", "final(self).version == old(self).version && final(self).config == old(self).config && final(self).phase == old(self).phase && final(self).partial_batch == old(self).partial_batch "
+                            "&& final(self).network_read_accumulator == old(self).network_read_accumulator && final(self).security_mechanism == old(self).security_mechanism")]),
+  Fn(EN, "derive_pending_framer", impl=IMPL, emit_impl="impl ZmtpEngine",
+     ensures=[HS_FRAME, ("C06:framer_remembers_its_mechanism", "r matches Ok(f) ==> f.origin_kind() == old(self).security_mechanism.kind() && f.origin_complete() == old(self).security_mechanism.complete()"),
+              ("C06:frame", "final(self).version == old(self).version && final(self).config == old(self).config && final(self).phase == old(self).phase && final(self).partial_batch == old(self).partial_batch "
+                            "&& final(self).network_read_accumulator == old(self).network_read_accumulator && final(self).framer == old(self).framer && final(self).pending_framer == old(self).pending_framer")]),
+  Fn(EN, "emit_local_ready", impl=IMPL, emit_impl="impl ZmtpEngine",
+     ensures=[("C06:never_reports_completion", "n_gated(final(out).app_actions@) == n_gated(old(out).app_actions@)"),
+              ("C06:output_only_appended", "extends(old(out).app_actions@, final(out).app_actions@)"),
+              ("C02:no_delivery", "deliveries_complete(old(out).app_actions@) ==> deliveries_complete(final(out).app_actions@)")],
+     extra=[("R6", "build_local_ready_props(&self.config)", "build_local_ready_props(&*self.config)", 1)],
+     hints=[("bc", "@fn_start", 0, "", "broadcast use lemma_delivered_push, lemma_sends_push, lemma_n_gated_push;")]),
   Fn(EN, "process_data", impl=IMPL, emit_impl="impl ZmtpEngine",
-     requires=["all_more(old(self).partial_batch@)", "old(self).phase == ZmtpPhase::Data"],
-     ensures=[
+     requires=["n_gated(old(out).app_actions@) > 0 ==> old(self).auth_ok()", "old(self).inv()", "old(self).phase == ZmtpPhase::Data"],
+     ensures=handler_post([
        # while the connection stays open every data frame read is either delivered or kept for the message in progress, in order
        ("C02+C04:grouping_conserves_frames_in_order",
         "final(self).phase == old(self).phase ==> delivered_frames(final(out).app_actions@) + final(self).partial_batch@ =~= delivered_frames(old(out).app_actions@) + old(self).partial_batch@ + data_frames(final(self).new_frames(old(self).framer.read_log()))"),
        # and even when it is closed, what was delivered is a prefix of what was received: nothing reordered, invented or cut out of the middle
        ("C02+C04:delivered_is_prefix_of_received",
         "is_prefix(delivered_frames(final(out).app_actions@) + final(self).partial_batch@, delivered_frames(old(out).app_actions@) + old(self).partial_batch@ + data_frames(final(self).new_frames(old(self).framer.read_log())))"),
-       ("C02:only_complete_messages_delivered", "deliveries_complete(old(out).app_actions@) ==> deliveries_complete(final(out).app_actions@)"),
-       ("C02:partial_keeps_more", "all_more(final(self).partial_batch@)"),
        ("C19:every_ping_answered_with_same_context", "old(self).version != Some(ZmtpVersion::V2) ==> sends(final(out).net_actions@) =~= sends(old(out).net_actions@) + pong_replies(final(self).new_frames(old(self).framer.read_log()))"),
        ("C19:no_heartbeat_on_v2", "old(self).version == Some(ZmtpVersion::V2) ==> sends(final(out).net_actions@) == sends(old(out).net_actions@)"),
        ("C19:pong_clears_waiting", "final(self).waiting_for_pong ==> old(self).waiting_for_pong"),
-       ("C06:frame", "final(self).version == old(self).version && final(self).config == old(self).config && final(self).framer.origin_kind() == old(self).framer.origin_kind() && final(self).framer.origin_complete() == old(self).framer.origin_complete()"),
+       ("C06:frame", "final(self).version == old(self).version && final(self).framer.origin_kind() == old(self).framer.origin_kind() && final(self).framer.origin_complete() == old(self).framer.origin_complete()"),
        ("C07:phase_only_closes", "final(self).phase == old(self).phase || final(self).phase == ZmtpPhase::Closed"),
-       ("C06:prefix", "old(out).app_actions@.len() <= final(out).app_actions@.len() && final(out).app_actions@.subrange(0, old(out).app_actions@.len() as int) == old(out).app_actions@"),
-     ],
+     ]),
      loops={0: {
        "invariant": [
          "all_more(self.partial_batch@)", "old(self).framer.read_log().len() <= self.framer.read_log().len()",
@@ -94,19 +217,104 @@ parts = [
          ("C19:loop_pongs", "old(self).version != Some(ZmtpVersion::V2) ==> sends(out.net_actions@) =~= sends(old(out).net_actions@) + pong_replies(self.new_frames(old(self).framer.read_log()))"),
          ("C19:loop_v2", "old(self).version == Some(ZmtpVersion::V2) ==> sends(out.net_actions@) == sends(old(out).net_actions@)"),
          "self.waiting_for_pong ==> old(self).waiting_for_pong",
-         "self.version == old(self).version && self.config == old(self).config && self.framer.origin_kind() == old(self).framer.origin_kind() && self.framer.origin_complete() == old(self).framer.origin_complete()",
-         "self.phase == old(self).phase", "old(self).phase == ZmtpPhase::Data",
-         "old(out).app_actions@.len() <= out.app_actions@.len() && out.app_actions@.subrange(0, old(out).app_actions@.len() as int) == old(out).app_actions@",
+         PD_INV_FRAME,
+         "self.phase == old(self).phase", "old(self).phase == ZmtpPhase::Data", "old(self).inv()",
+         "self.revision_sent == old(self).revision_sent && self.is_server == old(self).is_server",
+         "extends(old(out).app_actions@, out.app_actions@)",
+         "old(self).auth_ok()", "n_gated(old(out).app_actions@) > 0 ==> old(self).auth_ok()",
        ],
+       "ensures": [("C04:loop_exit_drained", "self.framer.would_block(self.network_read_accumulator@)")],
        "decreases": "self.framer.budget(self.network_read_accumulator@)"}},
      extra=[("R6", "ZmtpCommand::create_pong(&ctx)", "ZmtpCommand::create_pong(ctx.as_slice())", 1)],
      hints=[
-       ("top", "@loop_start:0", 0, "", "broadcast use lemma_delivered_push, lemma_sends_push;\nlet ghost log0 = self.framer.read_log(); let ghost base = old(self).framer.read_log(); let ghost nf0 = self.new_frames(base); let ghost acts0 = out.app_actions@; let ghost nets0 = out.net_actions@; let ghost part0 = self.partial_batch@;"),
+       ("top", "@loop_start:0", 0, "", "broadcast use lemma_delivered_push, lemma_sends_push, lemma_n_gated_push;\nlet ghost log0 = self.framer.read_log(); let ghost base = old(self).framer.read_log(); let ghost nf0 = self.new_frames(base); let ghost acts0 = out.app_actions@; let ghost nets0 = out.net_actions@; let ghost part0 = self.partial_batch@;"),
        ("read", "re:self\\.last_activity_time\\s*=\\s*Instant::now\\(\\);", 0, "before",
         "proof { assert(self.new_frames(base) =~= nf0.push(msg)); lemma_data_frames_push(nf0, msg); lemma_pong_replies_push(nf0, msg); }\nlet ghost m0 = msg;"),
        ("end", "@loop_end:0", 0, "",
         "proof { assert(delivered_frames(out.app_actions@) + self.partial_batch@ =~= (delivered_frames(acts0) + part0).push(m0)); }"),
      ]),
+  Fn(EN, "process_v2_identity", impl=IMPL, emit_impl="impl ZmtpEngine",
+     requires=["n_gated(old(out).app_actions@) > 0 ==> old(self).auth_ok()", "old(self).inv()", "old(self).phase == ZmtpPhase::V2Identity"],
+     ensures=handler_post([("C19:no_heartbeat_state_on_v2", "final(self).version == old(self).version")]),
+     extra=CORK + [
+       ("R8", re.compile(r"self\s*\.config\s*\.routing_id\s*\.as_ref\(\)\s*\.map_or_else\(Vec::new, \|id\| id\.as_ref\(\)\.to_vec\(\)\)", re.S), "verif_routing_id_bytes(&self.config)", 1),
+       ("R5", "crate::Msg::from_vec", "Msg::from_vec", 1),
+     ],
+     hints=[("bc", "@fn_start", 0, "", "broadcast use lemma_delivered_push, lemma_sends_push, lemma_n_gated_push;")]),
+  Fn(EN, "process_ready", impl=IMPL, emit_impl="impl ZmtpEngine",
+     requires=["n_gated(old(out).app_actions@) > 0 ==> old(self).auth_ok()", "old(self).inv()", "old(self).phase == ZmtpPhase::Ready"],
+     ensures=handler_post(),
+     extra=CORK + [
+       ("R8", re.compile(r"ready_cmd\s*\.properties\s*\.get\(\"Socket-Type\"\)\s*\.map\(\|v\| String::from_utf8_lossy\(v\)\.into_owned\(\)\)", re.S), "verif_ready_socket_type(&ready_cmd)", 1),
+       ("R8", re.compile(r"ready_cmd\s*\.properties\s*\.get\(\"Identity\"\)\s*\.map\(\|v\| Blob::from\(v\.clone\(\)\)\)", re.S), "verif_ready_identity(&ready_cmd)", 1),
+     ],
+     loops={0: {
+       "invariant": ["n_gated(old(out).app_actions@) > 0 ==> old(self).auth_ok()", "old(self).auth_ok() ==> self.auth_ok()", "self.revision_sent == old(self).revision_sent && self.version == old(self).version && self.is_server == old(self).is_server", "self.inv()", "self.phase == ZmtpPhase::Ready", "self.config == old(self).config", "out.app_actions@ == old(out).app_actions@"],
+       "decreases": "self.framer.budget(self.network_read_accumulator@)"}},
+     hints=[("bc", "@loop_start:0", 0, "", "broadcast use lemma_delivered_push, lemma_sends_push, lemma_n_gated_push;")]),
+  Fn(EN, "emit_security_token", impl=IMPL, emit_impl="impl ZmtpEngine",
+     requires=["n_gated(old(out).app_actions@) > 0 ==> old(self).auth_ok()", "old(self).inv()", "old(self).phase == ZmtpPhase::Security"],
+     ensures=[HS_FRAME, 
+       ("C06:inv_preserved", "final(self).inv()"),
+       ("C06:config_frame", "final(self).config == old(self).config"),
+       ("C06:never_reports_completion", "n_gated(final(out).app_actions@) == n_gated(old(out).app_actions@)"),
+       ("C06:output_only_appended", "extends(old(out).app_actions@, final(out).app_actions@)"),
+       ("C02:no_delivery", "deliveries_complete(old(out).app_actions@) ==> deliveries_complete(final(out).app_actions@)"),
+       ("C06:phase", "r ==> final(self).phase == ZmtpPhase::Security"),
+       ("C07:false_means_closed", "!r ==> final(self).phase == ZmtpPhase::Closed"),
+       ("C06:frame", "final(self).version == old(self).version && final(self).framer == old(self).framer && final(self).pending_framer == old(self).pending_framer "
+                     "&& final(self).network_read_accumulator == old(self).network_read_accumulator && final(self).partial_batch == old(self).partial_batch"),
+     ],
+     extra=[("R5", re.compile(r"\n\s*use crate::\{Msg, MsgFlags\};"), "", 1)],
+     hints=[("bc", "@fn_start", 0, "", "broadcast use lemma_delivered_push, lemma_sends_push, lemma_n_gated_push;")]),
+  Fn(EN, "check_security_complete", impl=IMPL, emit_impl="impl ZmtpEngine",
+     requires=["n_gated(old(out).app_actions@) > 0 ==> old(self).auth_ok()", "old(self).inv()", "old(self).phase == ZmtpPhase::Security"],
+     ensures=handler_post([
+       # the Ready phase is entered only on the mechanism's own completion report
+       ("C06:ready_only_after_mechanism_complete", "final(self).phase != ZmtpPhase::Security ==> old(self).security_mechanism.complete() || final(self).phase == ZmtpPhase::Closed"),
+       ("C06:unfinished_mechanism_changes_nothing", "!r ==> final(self).phase == ZmtpPhase::Security && final(out).app_actions@ == old(out).app_actions@ && final(self).framer == old(self).framer "
+        "&& final(self).network_read_accumulator == old(self).network_read_accumulator"),
+     ]),
+     hints=[("bc", "@fn_start", 0, "", "broadcast use lemma_delivered_push, lemma_sends_push, lemma_n_gated_push;")]),
+  Fn(EN, "process_security", impl=IMPL, emit_impl="impl ZmtpEngine",
+     requires=["n_gated(old(out).app_actions@) > 0 ==> old(self).auth_ok()", "old(self).inv()", "old(self).phase == ZmtpPhase::Security"],
+     ensures=handler_post(),
+     extra=[("R2", re.compile(r"self\s*\.security_mechanism\s*\.error_reason\(\)\s*\.unwrap_or\(\"unknown\"\)\s*\.to_owned\(\)", re.S), "verif_fmt()", 1)],
+     loops={0: {
+       "invariant": ["n_gated(old(out).app_actions@) > 0 ==> old(self).auth_ok()", "old(self).auth_ok() ==> self.auth_ok()", "self.revision_sent == old(self).revision_sent && self.version == old(self).version && self.is_server == old(self).is_server", "self.inv()", "self.phase == ZmtpPhase::Security", "self.config == old(self).config",
+                     "extends(old(out).app_actions@, out.app_actions@)",
+                     "n_gated(out.app_actions@) == n_gated(old(out).app_actions@)",
+                     "deliveries_complete(old(out).app_actions@) ==> deliveries_complete(out.app_actions@)"],
+       "decreases": "self.framer.budget(self.network_read_accumulator@)"}},
+     hints=[("bc", "@fn_start", 0, "", "broadcast use lemma_delivered_push, lemma_sends_push, lemma_n_gated_push;"),
+            ("bc2", "@loop_start:0", 0, "", "broadcast use lemma_delivered_push, lemma_sends_push, lemma_n_gated_push;")]),
+  Fn(EN, "process_greeting", impl=IMPL, emit_impl="impl ZmtpEngine",
+     requires=["n_gated(old(out).app_actions@) > 0 ==> old(self).auth_ok()", "old(self).inv()", "old(self).phase == ZmtpPhase::Greeting"],
+     ensures=handler_post(hs_frame=False, extra=[
+       # C05 staged greeting: the revision byte needs only the peer's 10-byte signature, the v3 tail only its revision byte
+       ("C05:revision_follows_peer_signature",
+        "old(self).network_read_accumulator@.len() >= 10 && old(self).network_read_accumulator@[0] == 0xFF && old(self).network_read_accumulator@[9] == 0x7F ==> final(self).revision_sent"),
+       ("C05:revision_sent_at_most_once", "old(self).revision_sent ==> final(self).revision_sent"),
+       ("C05:v3_committed_on_peer_revision",
+        "old(self).network_read_accumulator@.len() >= 11 && old(self).network_read_accumulator@[0] == 0xFF && old(self).network_read_accumulator@[9] == 0x7F "
+        "&& old(self).network_read_accumulator@[10] >= 3 && old(self).version is None ==> final(self).version == Some(ZmtpVersion::V3)"),
+     ]),
+     extra=[
+       ("R6", "&self.network_read_accumulator[..SIGNATURE_LENGTH]", "self.network_read_accumulator.verif_prefix(SIGNATURE_LENGTH)", 1),
+       ("R6", "local_mechanism_name_bytes(&self.config)", "local_mechanism_name_bytes(&*self.config)", 1),
+       ("R8", "socket_type_name_from_code(peer_stype_byte).map(String::from)", "verif_stype_name_owned(peer_stype_byte)", 1),
+       ("R5", "crate::security::negotiate_security_mechanism(", "negotiate_security_mechanism(", 1),
+       ("R6", re.compile(r"&self\.config,\s*\n(\s*)&peer_greeting,"), r"&*self.config,\n\1&peer_greeting,", 1),
+       ("R6", "Bytes::from_static(&[V3_REVISION])", "Bytes::verif_from_array1([V3_REVISION])", 1),
+       ("R6", "Bytes::copy_from_slice(&[local_stype])", "Bytes::verif_from_array1([local_stype])", 1),
+     ],
+     hints=[("bc", "@fn_start", 0, "", "broadcast use lemma_delivered_push, lemma_sends_push, lemma_n_gated_push;"),
+            ("sec", "re:self\\.process_security\\(out\\);", 0, "before",
+             "proof { assert(all_more(self.partial_batch@)); assert(self.version == Some(ZmtpVersion::V3)); assert(allowed_kind(*self.config, self.security_mechanism.kind())); }"),
+            ("rdy", "re:if !self\\.network_read_accumulator\\.is_empty\\(\\) \\{\\s*self\\.process_ready\\(out\\);", 0, "before",
+             "proof { assert(all_more(self.partial_batch@)); assert(self.version == Some(ZmtpVersion::V3)); assert(self.inv()); }"),
+            ("v2", "re:self\\.process_v2_identity\\(out\\);", 0, "before",
+             "proof { assert(all_more(self.partial_batch@)); }")]),
 ]
 
 FNS = {p.name: p for p in parts if isinstance(p, Fn)}
